@@ -62,10 +62,48 @@ Definition cx_of (L : list (list nat)) : cx :=
 
 (* kinds 0 and 1 are the life time of a service without extensions / without pipelines
    (Properties.graph_lifetime_is_run, ext_lifetime_is_run); the harnesses pass empty lists there *)
+(* the tie of the sort ALGORITHM: with the order the implementation produced as preference the
+   model algorithm reproduces exactly that order (so the real order is one of its outputs) *)
+Definition reproduces (ns : list nat) (es : list (nat * nat)) (o : list nat) : bool :=
+  match topo_sort ns es o with
+  | Sorted o' => list_eqb Nat.eqb o' o
+  | Cyclic _ => false
+  end.
+
+Definition orders_tied (g : graph) (x : extset) (o : orders) : bool :=
+  orders_ok g x o &&
+  reproduces (exts x) (deps x) (ext_order o) &&
+  reproduces (nodes g) (edges g) (start_order o) &&
+  reproduces (nodes g) (edges g) (stop_order o).
+
+(* kind 0 only: P[4] = (node, Go type of the node: 0 receiverNode 1 processorNode 2 exporterNode
+   3 connectorNode 4 capabilitiesNode 5 fanOutNode); the nodes for which the type assertion
+   node.(component.Component) succeeded at run time (L[0]) must be those the model's table says *)
+Definition kind_of_code (c : nat) : node_kind :=
+  match c with 0 => KReceiver | 1 => KProcessor | 2 => KExporter | 3 => KConnector | 4 => KCapabilities | _ => KFanOut end.
+
+Definition kinds_agree (kind : nat) (L : list (list nat)) (P : list (list (nat * nat))) : bool :=
+  match kind with
+  | 0 => list_eqb Nat.eqb (nthL 0 L) (map fst (filter (fun p => kind_is_comp (kind_of_code (snd p))) (nthP 4 P))) &&
+         list_eqb Nat.eqb (nthL 1 L) (map fst (filter (fun p => negb (kind_is_comp (kind_of_code (snd p)))) (nthP 4 P)))
+  | _ => true
+  end.
+
 Definition model_raw (kind : nat) (L : list (list nat)) (P : list (list (nat * nat)))
   : option (list ev * list err) :=
   let g := graph_of L P in let x := extset_of L P in let o := orders_of L in let f := faults_of L in
-  if orders_ok g x o then Some (collector_run_cx g x o f (cx_of L)) else None.
+  if orders_tied g x o && kinds_agree kind L P then Some (collector_run_cx g x o f (cx_of L)) else None.
+
+(* ---- kind 7: a configured extension set whose dependency declarations contain a cycle:
+   L = [exts; the cycle named by the implementation's error (empty when no error was returned); [panicked]], P = [deps].
+   The model algorithm must reject it too, and both named cycles must be real cycles of deps. *)
+Definition check_cyclic (L : list (list nat)) (P : list (list (nat * nat))) : bool :=
+  (* L[2] = [1] when extensions.New panicked (self-dependency: simple.SetEdge "adding self edge") *)
+  match compute_order (nthL 0 L) (nthP 0 P) [] with
+  | None => flag 0 (nthL 2 L)
+  | Some (Cyclic c) => negb (flag 0 (nthL 2 L)) && is_cycle (nthP 0 P) c && is_cycle (nthP 0 P) (nthL 1 L)
+  | Some (Sorted _) => false
+  end.
 
 Definition model_lifecycle (kind : nat) (L : list (list nat)) (P : list (list (nat * nat)))
   : option (list (nat * nat) * list (nat * nat)) :=
@@ -139,7 +177,7 @@ Fixpoint check_gens (gs : list (list (list nat) * list (list (nat * nat)))) (ms 
   | lp :: gs', [] =>
       match nthP 2 (snd lp), nthP 3 (snd lp) with [], [] => check_gens gs' [] | _, _ => false end
   | lp :: gs', m :: ms' =>
-      orders_ok (gn_graph (gen_of lp)) (gn_ext (gen_of lp)) (gn_ord (gen_of lp)) &&
+      orders_tied (gn_graph (gen_of lp)) (gn_ext (gen_of lp)) (gn_ord (gen_of lp)) &&
       list_eqb pair_eqb (map ev_wire (fst m)) (nthP 2 (snd lp)) &&
       list_eqb pair_eqb (map err_wire (snd m)) (nthP 3 (snd lp)) &&
       check_gens gs' ms'
@@ -164,6 +202,7 @@ Definition check_case (c : nat * (list (list nat) * list (list (nat * nat)))) : 
          list_eqb pair_eqb evs (nthP 0 P) && list_eqb Nat.eqb errs (nthL 2 L)
   | 5 => check_shared_service L P
   | 6 => check_reload L P
+  | 7 => check_cyclic L P
   | _ => match model_lifecycle kind L P with
          | Some (evs, errs) => list_eqb pair_eqb evs (nthP 2 P) && list_eqb pair_eqb errs (nthP 3 P)
          | None => false
